@@ -47,13 +47,20 @@ keys=$(echo "$res" | grep '^violation key=' | sed 's/^violation key=\([^ ]*\).*/
 case $rc in 1) verdict=caught;; 0) verdict=MISSED;; *) verdict="rc=$rc";; esac
 log "check $PROP: $verdict [$keys]"
 mkdir -p $OUT
-cp $SRC/patch.diff $OUT/patch.diff
-cp $demo $OUT/$(basename $demo)
+if [ "$(readlink -f $SRC)" != "$(readlink -f $OUT)" ]; then
+  cp $SRC/patch.diff $OUT/patch.diff
+  cp $demo $OUT/$(basename $demo)
+fi
 python3 - "$SRC/meta.json" "$OUT/meta.json" "$PROP" "$suite_ok" "$demo_ok" "$with" "$without" "$verdict" "$keys" "$dest" "$tests" <<'PY'
 import json,sys
 src,out,prop,suite_ok,demo_ok,with_,without,verdict,keys,dest,tests=sys.argv[1:]
-try: m=json.load(open(src))
-except Exception: m={}
+import os
+m={}
+if os.path.exists(out):
+    try: m=json.load(open(out))   # keep the coordinator's annotations
+    except Exception: m={}
+try: m.update(json.load(open(src)))
+except Exception: pass
 m.update({"property":prop,
  "confirmed_by_coordinator":{"patch_applies_to":"/repo HEAD at confirmation time","suite_passes_with_patch":suite_ok=="true","demo_fails_with_patch_and_passes_without":demo_ok=="true",
    "demo_placed_in":dest,"demo_tests":tests,"demo_output_with_patch":with_[:400],"demo_output_without_patch":without[:400],
